@@ -225,6 +225,10 @@ Definition junk_msg : bytes := [222;173;190;239;1;2;3;4;5;6;7].
 Definition dirty_state (st:state) : state :=
   let st := fst (NASEncrypt aes128 st AlgCiphering128NEA1 junk_key 305419896 7 1 (Some junk_msg)) in
   fst (NASMacCalculate aes128 st AlgIntegrity128NIA1 junk_key 2596069104 3 0 (Some junk_msg)).
+(* the same state, computed once (it is a constant of the model); [dirty0_ok] restates where it comes from *)
+Definition dirty0 : state := Eval vm_compute in dirty_state zero_state.
+Example dirty0_ok : dirty0 = dirty_state zero_state.
+Proof. vm_compute. reflexivity. Qed.
 Fixpoint eqb_bytes (a b:bytes) : bool :=
   match a, b with [], [] => true | x :: a', y :: b' => (x =? y) && eqb_bytes a' b' | _, _ => false end.
 Definition sres_agree (m o:sres bytes) : bool :=
@@ -237,26 +241,32 @@ Definition sres_agree (m o:sres bytes) : bool :=
 Definition sec_case := (bool * N * bytes * (N * N * N) * option bytes * sres bytes)%type.
 Definition nea_check (c:sec_case) : bool :=
   let '(dirty, alg, key, (count, bearer, dir), msg, obs) := c in
-  let st := if dirty then dirty_state zero_state else zero_state in
+  let st := if dirty then dirty0 else zero_state in
   sres_agree (snd (NASEncrypt aes128 st alg key count bearer dir msg)) obs.
 Definition nia_check (c:sec_case) : bool :=
   let '(dirty, alg, key, (count, bearer, dir), msg, obs) := c in
-  let st := if dirty then dirty_state zero_state else zero_state in
+  let st := if dirty then dirty0 else zero_state in
   sres_agree (snd (NASMacCalculate aes128 st alg key count bearer dir msg)) obs.
 Definition nea_expected (c:sec_case) : sres bytes :=
   let '(dirty, alg, key, (count, bearer, dir), msg, obs) := c in
-  snd (NASEncrypt aes128 (if dirty then dirty_state zero_state else zero_state) alg key count bearer dir msg).
+  snd (NASEncrypt aes128 (if dirty then dirty0 else zero_state) alg key count bearer dir msg).
 Definition nia_expected (c:sec_case) : sres bytes :=
   let '(dirty, alg, key, (count, bearer, dir), msg, obs) := c in
-  snd (NASMacCalculate aes128 (if dirty then dirty_state zero_state else zero_state) alg key count bearer dir msg).
+  snd (NASMacCalculate aes128 (if dirty then dirty0 else zero_state) alg key count bearer dir msg).
 (* the exported NEA1 / NIA1 with an explicit bit length (harness nea1raw / nia1raw): (dirty, key, (count,bearer,dir), msg, length, observed) *)
 Definition raw_case := (bool * bytes * (N * N * N) * bytes * N * sres bytes)%type.
 Definition nea1raw_check (c:raw_case) : bool :=
   let '(dirty, key, (count, bearer, dir), msg, len, obs) := c in
-  sres_agree (snd (NEA1 (if dirty then dirty_state zero_state else zero_state) key count bearer dir msg len)) obs.
+  sres_agree (snd (NEA1 (if dirty then dirty0 else zero_state) key count bearer dir msg len)) obs.
 Definition nia1raw_check (c:raw_case) : bool :=
   let '(dirty, key, (count, bearer, dir), msg, len, obs) := c in
-  sres_agree (snd (NIA1 (if dirty then dirty_state zero_state else zero_state) key count bearer dir msg len)) obs.
+  sres_agree (snd (NIA1 (if dirty then dirty0 else zero_state) key count bearer dir msg len)) obs.
+Definition nea1raw_expected (c:raw_case) : sres bytes :=
+  let '(dirty, key, (count, bearer, dir), msg, len, obs) := c in
+  snd (NEA1 (if dirty then dirty0 else zero_state) key count bearer dir msg len).
+Definition nia1raw_expected (c:raw_case) : sres bytes :=
+  let '(dirty, key, (count, bearer, dir), msg, len, obs) := c in
+  snd (NIA1 (if dirty then dirty0 else zero_state) key count bearer dir msg len).
 
 (* the implementation's historical defect and its absence now: NEA1 of four zero octets is keystream, not zeros *)
 Example nea1_four_zero_octets_are_ciphered :
